@@ -6,6 +6,9 @@ CONSTANTS MaxSets, NPerK
 
 -----------------------------------------------------------------------------
 (* primitive constants *)
+\* n times the word "lorem" separated by sep
+RECURSIVE Words(_, _)
+Words(n, sep) == IF n = 1 THEN <<108, 111, 114, 101, 109>> ELSE <<108, 111, 114, 101, 109>> \o sep \o Words(n - 1, sep)
 PrimValues == <<
     VBool(TRUE), VBool(FALSE),
     VInt("0"), VInt("1"), VInt("7"), VInt("-1"), VInt("2147483648"), VInt("9223372036854775808"), VInt("123456789012345678901234567890"), VInt("-123456789012345678901234567890"),
@@ -14,6 +17,13 @@ PrimValues == <<
     VStr(<<10>>), VStr(<<13>>), VStr(<<13, 10>>), VStr(<<9>>), VStr(<<1>>), VStr(<<7, 8, 11, 12>>), VStr(<<27>>), VStr(<<127>>), VStr(<<133>>), VStr(<<8232>>), VStr(<<65279>>),
     VStr(<<128512>>), VStr(<<97, 128512, 98>>), VStr(<<233, 8364>>), VStr(<<123, 125>>), VStr(<<123, 120, 125>>), VStr(<<37, 115>>), VStr(<<36, 123, 120, 125>>), VStr(<<34, 34, 34>>), VStr(<<39, 39, 39>>),
     VStr(<<32>>), VStr(<<32, 97, 32>>),
+    \* not printable (str.isprintable), below U+0100, above U+00FF, above U+FFFF
+    VStr(<<173>>), VStr(<<160, 97>>), VStr(<<8203>>), VStr(<<97, 8232, 98>>), VStr(<<8233>>), VStr(<<8238, 97, 8236>>), VStr(<<57344>>),
+    VStr(<<917505>>), VStr(<<97, 983040, 98>>), VStr(<<1114111>>), VStr(<<917505, 48>>),
+    \* long texts (a generator may wrap them): plain words, with TAB / LF / CR / VT / FF / several blanks between words, without any blank
+    VStr(Words(14, <<32>>)), VStr(Words(14, <<9>>)), VStr(Words(14, <<10>>)), VStr(Words(14, <<13, 10>>)), VStr(Words(14, <<11>>)), VStr(Words(14, <<12>>)),
+    VStr(Words(14, <<32, 32>>)), VStr(<<32>> \o Words(14, <<32>>) \o <<32>>), VStr(Words(30, <<>>)), VStr(Words(14, <<45>>)), VStr(Words(40, <<32, 9, 32>>)),
+    VStr(Words(14, <<8232>>)), VStr(Words(14, <<39, 34, 92>>)),
     VBytes(<<>>), VBytes(<<0>>), VBytes(<<255>>), VBytes(<<0, 255, 34, 92>>), VBytes(<<1, 2, 3, 4, 5, 6, 7, 8, 9>>) >>
 PrimsOut == T([i \in 1..Len(PrimValues) |-> [id |-> i, declared |-> PrimValues[i]]])
 
@@ -55,7 +65,9 @@ Enums == <<
     << L(I_A, <<65, 97>>), L(I_B, <<65, 65>>), L(I_D, <<83, 111, 109, 101, 95, 85, 82, 76, 95, 108, 105, 116, 101, 114, 97, 108>>) >>,  \* values equal to names / python names
     << L(I_A, <<120>>) >>,
     << L(I_A, <<120>>), L(I_B, <<120>>) >>,                                                                                         \* duplicate value
-    << L(I_A, <<123, 125>>), L(I_B, <<37, 115>>), L(I_C, <<1>>), L(I_D, <<32>>) >>                                                  \* {} %s U+0001 blank
+    << L(I_A, <<123, 125>>), L(I_B, <<37, 115>>), L(I_C, <<1>>), L(I_D, <<32>>) >>,                                                 \* {} %s U+0001 blank
+    << L(I_A, <<8232>>), L(I_B, <<97, 8203, 98>>), L(I_C, <<65279, 120>>), L(I_D, <<173>>) >>,                                      \* not printable, above U+00FF: LS, ZWSP, BOM; soft hyphen
+    << L(I_A, <<917505>>), L(I_B, <<983040, 48>>), L(I_C, <<1114111>>), L(I_D, <<57344, 8233>>) >>                                  \* not printable, above U+FFFF: TAG, private use; PS
     >>
 Distinct(lits) == \A a, b \in 1..Len(lits) : a # b => lits[a].val # lits[b].val
 NearMisses(lits) ==
